@@ -162,6 +162,33 @@ def _replay_group(ctx, op, mode, recs, passes):
                     ctx.traces += len(batch)
 
 
+def _long_mask_rows(ctx, recs, count):
+    """Selection distributes over concatenation: the mask m1 ++ m2 ++ ... selects out1 ++ (out2 shifted by len1) ++ ...
+    Rows of 17 .. ~60 positions are built that way from the model's behaviours (real utterances are never 5 frames)."""
+    rows = []
+    pool = [r for r in recs if r["len"] >= 1]
+    for _ in range(count):
+        mask, out, off = [], [], 0
+        target = ctx.rng.choice([17, 20, 33, 48, 64])
+        while off < target:
+            r = ctx.rng.choice(pool)
+            mask += list(r["mask"][:r["len"]])
+            out += [k + off for k in r["out"][:r["n"]]]
+            off += r["len"]
+        rows.append(dict(len=off, a=0, b=0, mask=mask, out=out, n=len(out)))
+    return rows
+
+
+def _replay_long_masks(ctx, recs, batches):
+    for _ in range(batches):
+        rows = _long_mask_rows(ctx, recs, ctx.rng.randint(1, 6))
+        T = max(r["len"] for r in rows) + ctx.rng.choice([0, 0, 3])
+        case = dict(op="mask", mode="constant", T=T, feat=list(ctx.rng.choice([(), (2,)])), salt=ctx.rng.randrange(1 << 20),
+                    lens_given=True, module=ctx.rng.random() < 0.3, batch_first=ctx.rng.random() < 0.5, rows=rows)
+        _judge(ctx, SITE["mask"], case)
+        ctx.traces += len(rows)
+
+
 def _judge(ctx, site, case, depth=0):
     fails, info = eval_batch(case)
     ctx.case(n=len(case["rows"]))
@@ -310,7 +337,8 @@ def _selftest(ctx, recs):
 # ------------------------------------------------------------------ entry points
 def run(ctx):
     ctx.rule = ("every behaviour of PadSlice.tla: (length, left pad, right pad, mode), (length, slice start, slice end, "
-                "mode) and (length, mask), restricted to pads legal for the mode, replayed in seeded ragged batches "
+                "mode) and (length, mask), restricted to pads legal for the mode, plus masks of 17..~70 positions "
+                "concatenated from the model's masks (selection distributes over concatenation), replayed in seeded ragged batches "
                 "(time dimension = longest row + 0..2 cells of distinct garbage, feature dims () / (2,) / (2,3), lens "
                 "given or omitted, functional and module entry points); RandomShift: recorded runs validated by "
                 "PadSliceTrace.  Non-trivial = non-empty output that differs from the untouched sequence (padding, "
@@ -343,6 +371,8 @@ def run(ctx):
     for key in sorted(groups):
         g = sorted(groups[key], key=lambda r: (r["len"], r["a"], r["b"], r["mask"]))
         _replay_group(ctx, key[0], key[1], g, passes if key[0] != "mask" else 3 * passes)
+        if key[0] == "mask":
+            _replay_long_masks(ctx, g, 60 if ctx.quick else 600)
     _random_shift(ctx)
     if not ctx.quick:
         _selftest(ctx, recs)
